@@ -142,6 +142,7 @@ def spelling(a, kw, variant):
 
 
 SPELL_FULL = ['args', 'list', 'str', 'index', 'acct-list', 'acct-list', 'acct-str', 'coin-list', 'full-list', 'full-str']
+ACCT_IN_PATH = ('acct-list', 'acct-str', 'coin-list', 'full-list', 'full-str', 'offset-path')
 SPELL_REL = ['args', 'list', 'str', 'index']          # watch-only and multisig wallets: below the account key
 
 
@@ -275,6 +276,7 @@ class Driver:
             a = dict(a, n=1, form='args', spell='args')
         if a['op'] == 'key_for_path' and 'spell' not in a:
             a = dict(a, spell='args' if a['form'] == 'args' else 'list')
+        a.setdefault('acctin', 'arg')
         ok, out, text = self.call(a, variant)
         self.record(a, ok, out, text)
 
@@ -293,8 +295,11 @@ class Driver:
             elif op == 'export' and not watch and not cfg['ms']:
                 sp = rng.choice(['public_master', 'public_master', 'offset-', 'offset-path', 'offset+'])
             # form (for the specification): whether the change chain is given in the path or as an argument
+            if net != cfg['net'] and sp in ACCT_IN_PATH:
+                sp = 'list' if op == 'key_for_path' else 'offset-'      # other networks: the account is always given by number
             return {'op': op, 'net': net, 'wt': wt, 'acct': acct, 'ch': ch, 'n': n, 'idx': idx, 'spell': sp,
-                    'form': 'args' if sp in ('args', 'index') or op != 'key_for_path' else 'path'}
+                    'form': 'args' if sp in ('args', 'index') or op != 'key_for_path' else 'path',
+                    'acctin': 'path' if sp in ACCT_IN_PATH else 'arg'}
 
         def some_chain():
             x = rng.random()
@@ -403,7 +408,7 @@ def _pick_ms(self):
     def req(op, ch=0, n=1, idx=0, net=None, wt=None):
         sp = rng.choice(SPELL_REL) if op == 'key_for_path' else 'args'
         return {'op': op, 'net': net or cfg['net'], 'wt': wt or cfg['wt'], 'acct': 0, 'ch': ch, 'n': n, 'idx': idx, 'spell': sp,
-                'form': 'args' if sp in ('args', 'index') else 'path'}
+                'form': 'args' if sp in ('args', 'index') else 'path', 'acctin': 'arg'}
     ch = rng.choice([0, 0, 1])
     ix = [k[4] for k in leafs if k[3] == ch]
     t = max(ix) if ix else -1
